@@ -686,6 +686,10 @@ def run(prog, rep, tier):
     rep.rule('SLICE-neg-zero', 'a negative slice bound -E needs E != 0 at that point')
     if check_neg_zero_slices(prog, rep) < 3:
         raise AnalysisError('SLICE-neg-zero: the slices of _tensordot_transpose_axes / _tensordot_worker not found')
+    rep.rule('AXIS-default-order-free', 'the default position of a combined leg depends on leg '
+             'numbers only, not on the order in which the groups are listed')
+    if check_default_axes_order_free(prog, rep) < 1:
+        raise AnalysisError('AXIS-default-order-free: default branch of _combine_legs_new_axes not found')
     rep.rule('SPLICE-descending', 'one-for-many list splices at the loop variable run over '
              'descending positions')
     if check_splice_order(prog, rep) < 3:
@@ -923,4 +927,47 @@ def check_splice_order(prog, rep):
                                               'inserted (wrong legs / labels when more than one '
                                               'pipe is split)' % (key_text(st)[:60], v,
                                                                   unparse(it)[:40]), st.lineno)
+    return n
+
+
+# ------------------------------------------------------------------ AXIS-default-order-free
+def check_default_axes_order_free(prog, rep):
+    """AXIS-default-order-free: the documented default position of a combined leg is "the position
+    of its first leg, not counting legs absorbed into pipes in front of it" -- a function of the
+    LEG NUMBERS only. The default computed in _combine_legs_new_axes therefore must not use the
+    position of a group inside the argument `combine_legs` (an enumerate index) as a value: that is
+    only right when the caller lists the groups in ascending order of their first leg."""
+    m = prog.module(NPC)
+    f = m.func('Array._combine_legs_new_axes')
+    n = 0
+    for br in ast.walk(f):
+        if not (isinstance(br, ast.If) and unparse(br.test) == 'new_axes is None'):
+            continue
+        n += 1
+        bad = None
+        for node in ast.walk(ast.Module(body=br.body, type_ignores=[])):
+            gens = node.generators if isinstance(node, (ast.ListComp, ast.GeneratorExp)) else (
+                [node] if isinstance(node, ast.For) else [])
+            for g in gens:
+                it = g.iter
+                if isinstance(it, ast.Call) and call_name(it) == 'enumerate' and it.args and \
+                        unparse(it.args[0]) == 'combine_legs' and isinstance(
+                            g.target, ast.Tuple) and isinstance(g.target.elts[0], ast.Name):
+                    idx = g.target.elts[0].id
+                    body = [node.elt] if isinstance(node, (ast.ListComp, ast.GeneratorExp)) \
+                        else node.body
+                    for b in body:
+                        for x in ast.walk(b):
+                            if isinstance(x, ast.Name) and x.id == idx and not isinstance(
+                                    parent(x), ast.Subscript):
+                                bad = x
+        rep.instance('AXIS-default-order-free', {'function': 'Array._combine_legs_new_axes',
+                                                 'uses_group_position': bad is not None})
+        if bad is not None:
+            rep.violation('AXIS-default-order-free', m, 'Array._combine_legs_new_axes',
+                          'group-position-as-value',
+                          'the default `new_axes` uses the position `%s` of a group inside '
+                          '`combine_legs` as a value: groups listed in another order than their '
+                          'first legs get other (even equal) positions than documented' % bad.id,
+                          bad.lineno)
     return n
